@@ -347,4 +347,505 @@ theorem destroy_noop_syn (sch : Schema) (inj : Option Inj) (fuel c id : Nat) (s 
       unfold destroyTail at h
       rw [run_stmt_tail sch inj _ _ s1 s' e (by intro s2; simp [run]) h, hc]
 
+
+/-! ## the statement that is hit: whatever comes next, failing AT its first statement changes nothing -/
+
+/-- if the next statement to be sent is the one the injected error falls on, the program stops
+    there with an unchanged core -/
+def HeadQuiet (sch : Schema) (inj : Option Inj) (p : Prog) : Prop :=
+  ∀ (s : St) (e0 : Err), hit inj (s.n + 1) = some e0 →
+    ∃ s1 e, run sch inj p s = (s1, some e) ∧ s1.core = s.core
+
+theorem HeadQuiet_stmt (sch inj) (q : Stmt) (k : Prog) : HeadQuiet sch inj (.stmt q k) := by
+  intro s e0 h
+  exact ⟨{ s with n := s.n + 1, log := q :: s.log }, e0, by simp only [run, h], rfl⟩
+
+theorem HeadQuiet_freeLinks (sch inj) (kc : Cls) (c vid : Nat) (k : Prog) (hk : HeadQuiet sch inj k) :
+    HeadQuiet sch inj (freeLinksSeg kc c vid k) := by
+  unfold freeLinksSeg
+  cases (kc.joins.filter fun j => j.other == c) with
+  | nil => exact hk
+  | cons j js => exact HeadQuiet_stmt sch inj _ _
+
+theorem HeadQuiet_restrict (sch inj) (fk : List (Nat × Pol)) (kidx vid : Nat) (k : Prog) (hk : HeadQuiet sch inj k) :
+    HeadQuiet sch inj (restrictSeg fk kidx vid k) := by
+  unfold restrictSeg; split
+  · exact hk
+  · exact HeadQuiet_stmt sch inj _ _
+
+theorem HeadQuiet_null (sch inj) (fk : List (Nat × Pol)) (kidx vid : Nat) (k : Prog) (hk : HeadQuiet sch inj k) :
+    HeadQuiet sch inj (nullSeg sch fk kidx vid k) := by
+  unfold nullSeg; split
+  · exact hk
+  · exact HeadQuiet_stmt sch inj _ _
+
+theorem HeadQuiet_cascade (sch inj) (rec : Nat → Nat → Prog → Prog) (fk : List (Nat × Pol)) (kidx vid : Nat) (k : Prog)
+    (hk : HeadQuiet sch inj k) : HeadQuiet sch inj (cascadeSeg rec fk kidx vid k) := by
+  unfold cascadeSeg; split
+  · exact HeadQuiet_stmt sch inj _ _
+  · exact hk
+
+/-- an entry is the composition of its four segments also when the class has no key to the victim -/
+theorem depEntry_eq (rec : Nat → Nat → Prog → Prog) (sch : Schema) (c vid kidx : Nat) (k : Prog) :
+    depEntry rec sch c vid kidx k =
+      freeLinksSeg (clsOf sch kidx) c vid (restrictSeg (entryFk sch c kidx) kidx vid
+        (nullSeg sch (entryFk sch c kidx) kidx vid (cascadeSeg rec (entryFk sch c kidx) kidx vid k))) := by
+  unfold depEntry entryFk
+  simp only
+  split
+  · rename_i h
+    have : fkCols (clsOf sch kidx).cols c = [] := by simpa using h
+    rw [this]
+    simp [restrictSeg, nullSeg, cascadeSeg, restrictCols, nullCols, hasCascade]
+  · rfl
+
+theorem HeadQuiet_entry (sch inj) (rec : Nat → Nat → Prog → Prog) (c vid kidx : Nat) (k : Prog)
+    (hk : HeadQuiet sch inj k) : HeadQuiet sch inj (depEntry rec sch c vid kidx k) := by
+  rw [depEntry_eq]
+  exact HeadQuiet_freeLinks _ _ _ _ _ _ (HeadQuiet_restrict _ _ _ _ _ _ (HeadQuiet_null _ _ _ _ _ _
+    (HeadQuiet_cascade _ _ _ _ _ _ _ hk)))
+
+theorem HeadQuiet_depLoop (sch inj) (rec : Nat → Nat → Prog → Prog) (c vid : Nat) (ks : List Nat) (k : Prog)
+    (hk : HeadQuiet sch inj k) : HeadQuiet sch inj (depLoop rec sch c vid ks k) := by
+  induction ks with
+  | nil => exact hk
+  | cons x xs ih => exact HeadQuiet_entry sch inj rec c vid x _ ih
+
+theorem HeadQuiet_tail (sch inj) (c id : Nat) (k : Prog) : HeadQuiet sch inj (destroyTail c id k) :=
+  HeadQuiet_stmt sch inj _ _
+
+/-- the head of a non-passing entry whose link rows are quiet: the join DELETEs and the restriction
+    test are effect-free -/
+theorem QS_entry_head (sch inj K) (c vid kidx : Nat)
+    (hl : EntryLinksQuiet sch K c vid kidx = true) :
+    QS sch inj (fun k => freeLinksSeg (clsOf sch kidx) c vid (restrictSeg (entryFk sch c kidx) kidx vid k)) K
+      (((clsOf sch kidx).joins.filter fun j => j.other == c).length + restrictCnt (entryFk sch c kidx)) :=
+  QS_comp (QS_freeLinks sch inj K _ c vid hl) (QS_restrict sch inj K _ kidx vid)
+
+def headCnt (sch : Schema) (K : Core) (c vid : Nat) (post : List Nat) : Nat :=
+  match post with
+  | [] => 0
+  | r :: _ => if EntryLinksQuiet sch K c vid r then
+      ((clsOf sch r).joins.filter fun j => j.other == c).length + restrictCnt (entryFk sch c r) else 0
+
+/-- **destroySelf, syntactically, with the statement that is hit.**  As `destroy_noop_syn`; the
+    injected error may also fall on the first statement after the classes with nothing to do, or —
+    when the next class has no link rows to free — on its join DELETEs, its restriction test, or
+    the statement after them. -/
+theorem destroy_noop_syn_hit (sch : Schema) (inj : Option Inj) (fuel c id : Nat) (s s' : St) (e : Err)
+    (pre post : List Nat)
+    (hpar : (clsOf sch c).parent = none)
+    (hsplit : List.range sch.length = pre ++ post)
+    (hown : ((clsOf sch c).joins.all fun j => linksQuiet s.core j.tab j.side id) = true)
+    (hpre : ∀ kidx ∈ pre, EntryPasses sch s.core c id kidx = true)
+    (hstop : ∃ i, inj = some i ∧ s.n < i.k ∧
+      i.k ≤ s.n + ((clsOf sch c).joins.length + loopCnt sch c pre + headCnt sch s.core c id post) + 1)
+    (h : run sch inj (destroyProg sch (fuel + 1) c id .done) s = (s', some e)) : s'.core = s.core := by
+  obtain ⟨i, hi, hlt, hle⟩ := hstop
+  unfold destroyProg at h
+  simp only [hpar, run, hsplit, depLoop_append] at h
+  have hA := QS_comp (QS_ownLinks sch inj s.core (clsOf sch c) id hown)
+    (QS_depLoop_pass sch inj s.core (destroyProg sch fuel) c id pre hpre)
+  have hhit : ∀ n, n = i.k → hit inj n = some i.err := by intro n hn; simp [hit, hi, hn]
+  -- finish from a state `s1` that reached statement count `i.k - 1` with an unchanged core
+  have fin : ∀ (p : Prog) (s1 : St), HeadQuiet sch inj p → s1.core = s.core → s1.n + 1 = i.k →
+      run sch inj p s1 = (s', some e) → s'.core = s.core := by
+    intro p s1 hp hc hn hr
+    obtain ⟨s2, e2, h2, hc2⟩ := hp s1 i.err (hhit _ hn)
+    rw [h2] at hr
+    simp only [Prod.mk.injEq] at hr
+    rw [← hr.1, hc2, hc]
+  rcases hA s (depLoop (destroyProg sch fuel) sch c id post (destroyTail c id .done)) rfl with
+    ⟨s1, e1, h1, hc⟩ | ⟨s1, h1, hc, _, hn, hno⟩
+  · rw [h1] at h
+    simp only [Prod.mk.injEq] at h
+    rw [← h.1, hc]
+  · rw [h1] at h
+    have hgt : s.n + ((clsOf sch c).joins.length + loopCnt sch c pre) < i.k := by
+      have := hno i hi; omega
+    cases post with
+    | nil =>
+      simp only [headCnt, Nat.add_zero] at hle
+      exact fin _ s1 (HeadQuiet_depLoop sch inj _ c id [] _ (HeadQuiet_tail sch inj c id _)) hc (by omega) h
+    | cons r rest =>
+      by_cases hl : EntryLinksQuiet sch s.core c id r = true
+      · simp only [headCnt, hl, if_true] at hle
+        have e1 : depLoop (destroyProg sch fuel) sch c id (r :: rest) (destroyTail c id .done) =
+            depEntry (destroyProg sch fuel) sch c id r (depLoop (destroyProg sch fuel) sch c id rest (destroyTail c id .done)) := rfl
+        rw [e1, depEntry_eq] at h
+        rcases QS_entry_head sch inj s.core c id r hl s1 _ hc with ⟨s2, e2, h2, hc2⟩ | ⟨s2, h2, hc2, _, hn2, hno2⟩
+        · rw [h2] at h
+          simp only [Prod.mk.injEq] at h
+          rw [← h.1, hc2]
+        · rw [h2] at h
+          have := hno2 i hi
+          exact fin _ s2 (HeadQuiet_null _ _ _ _ _ _ (HeadQuiet_cascade _ _ _ _ _ _ _
+            (HeadQuiet_depLoop sch inj _ c id rest _ (HeadQuiet_tail sch inj c id _)))) hc2 (by omega) h
+      · simp only [headCnt, hl, Bool.false_eq_true, if_false, Nat.add_zero] at hle
+        exact fin _ s1 (HeadQuiet_depLoop sch inj _ c id (r :: rest) _ (HeadQuiet_tail sch inj c id _)) hc (by omega) h
+
+
+theorem HeadQuiet_fail (sch inj) (e : Err) : HeadQuiet sch inj (.fail e) := by
+  intro s e0 _
+  exact ⟨s, e, by simp [run], rfl⟩
+
+theorem HeadQuiet_event (sch inj) (n : Nat) (k : Prog) (hk : HeadQuiet sch inj k) : HeadQuiet sch inj (.event n k) := by
+  intro s e0 h
+  obtain ⟨s1, e, h1, hc⟩ := hk s e0 h
+  exact ⟨s1, e, by simpa only [run] using h1, hc⟩
+
+theorem HeadQuiet_ownLinks (sch inj) (cl : Cls) (id : Nat) (k : Prog) (hk : HeadQuiet sch inj k) :
+    HeadQuiet sch inj (ownLinksSeg cl id k) := by
+  unfold ownLinksSeg
+  cases cl.joins with
+  | nil => exact hk
+  | cons j js => exact HeadQuiet_stmt sch inj _ _
+
+/-- whatever the victim (inheritable or not, referenced or not): an error at the first statement of
+    `destroySelf` finds nothing changed -/
+theorem HeadQuiet_destroy (sch inj) : ∀ (fuel c id : Nat) (k : Prog), HeadQuiet sch inj (destroyProg sch fuel c id k) := by
+  intro fuel
+  induction fuel with
+  | zero => intro c id k; unfold destroyProg; exact HeadQuiet_fail sch inj _
+  | succ fuel ih =>
+    intro c id k
+    unfold destroyProg
+    simp only
+    split
+    · exact ih _ _ _
+    · exact HeadQuiet_event _ _ _ _ (HeadQuiet_ownLinks _ _ _ _ _ (HeadQuiet_depLoop _ _ _ _ _ _ _ (HeadQuiet_tail _ _ _ _ _)))
+
+
+/-! ## quiet segments that certainly pass (no later statement is hit, nothing refuses) -/
+
+def QP (sch : Schema) (inj : Option Inj) (seg : Prog → Prog) (K : Core) : Prop :=
+  ∀ (s : St) (k : Prog), s.core = K → (∀ n, s.n < n → hit inj n = none) →
+    ∃ s1, run sch inj (seg k) s = run sch inj k s1 ∧ s1.core = K ∧ s.n ≤ s1.n
+
+theorem QP_id (sch inj K) : QP sch inj (fun k => k) K := by
+  intro s k hs _; exact ⟨s, rfl, hs, Nat.le_refl _⟩
+
+theorem QP_comp {sch inj K} {f g : Prog → Prog} (hf : QP sch inj f K) (hg : QP sch inj g K) :
+    QP sch inj (fun k => f (g k)) K := by
+  intro s k hs hno
+  obtain ⟨s1, h1, hc1, hn1⟩ := hf s (g k) hs hno
+  obtain ⟨s2, h2, hc2, hn2⟩ := hg s1 k hc1 (fun n hn => hno n (by omega))
+  exact ⟨s2, by rw [h1, h2], hc2, by omega⟩
+
+theorem QP_stmt {sch inj K} (q : Stmt)
+    (hq : ∀ s : St, s.core = K → ∃ s2, exec sch q s = .ok s2 ∧ s2.core = K ∧ s2.n = s.n ∧ s2.changes = s.changes) :
+    QP sch inj (fun k => .stmt q k) K := by
+  intro s k hs hno
+  obtain ⟨s2, hex, hc, hn, _⟩ := hq { s with n := s.n + 1, log := q :: s.log } hs
+  refine ⟨s2, ?_, hc, by rw [hn]; simp⟩
+  simp only [run, hno (s.n + 1) (by omega), hex]
+  have : bump { s with n := s.n + 1, log := q :: s.log } s2 = s2 := by
+    unfold bump; rw [if_pos]; rw [hc]; exact hs.symm
+  rw [this]
+
+theorem QP_dyn {sch inj K} (F : St → Prog → Prog) (h : ∀ s : St, s.core = K → QP sch inj (F s) K) :
+    QP sch inj (fun k => .dyn fun s => F s k) K := by
+  intro s k hs hno
+  have := h s hs s k hs hno
+  simpa only [run] using this
+
+theorem QP_foldr {sch inj K} {α} (seg : α → Prog → Prog) (xs : List α)
+    (h : ∀ x ∈ xs, QP sch inj (seg x) K) : QP sch inj (fun k => xs.foldr (fun x acc => seg x acc) k) K := by
+  induction xs with
+  | nil => exact QP_id sch inj K
+  | cons x xs ih =>
+    exact QP_comp (h x (by simp)) (ih (fun y hy => h y (by simp [hy])))
+
+theorem QP_select (sch inj K) (kidx : Nat) : QP sch inj (fun k => Prog.stmt (.select kidx) k) K :=
+  QP_stmt _ (fun s hs => by obtain ⟨s2, h⟩ := exec_select_ok sch kidx s; exact ⟨s2, h.1, h.2.1 ▸ hs, h.2.2⟩)
+
+theorem QP_freeLinks (sch inj K) (kc : Cls) (c vid : Nat)
+    (h : ((kc.joins.filter fun j => j.other == c).all fun j => linksQuiet K j.tab (!j.side) vid) = true) :
+    QP sch inj (freeLinksSeg kc c vid) K := by
+  unfold freeLinksSeg
+  refine QP_foldr (fun (j : Join) k => Prog.stmt (.delLinks j.tab (!j.side) vid) k) _ ?_
+  intro j hj
+  apply QP_stmt
+  intro s hs
+  subst hs
+  exact exec_delLinks_quiet _ _ _ _ s ((List.all_eq_true.mp h) j hj)
+
+theorem QP_ownLinks (sch inj K) (cl : Cls) (id : Nat)
+    (h : (cl.joins.all fun j => linksQuiet K j.tab j.side id) = true) : QP sch inj (ownLinksSeg cl id) K := by
+  unfold ownLinksSeg
+  refine QP_foldr (fun (j : Join) k => Prog.stmt (.delLinks j.tab j.side id) k) _ ?_
+  intro j hj
+  apply QP_stmt
+  intro s hs
+  subst hs
+  exact exec_delLinks_quiet _ _ _ _ s ((List.all_eq_true.mp h) j hj)
+
+/-- no referencing row at all: in particular none through a `cascade=False` key -/
+theorem restricting_of_refRows_nil (K : Core) (fk : List (Nat × Pol)) (kidx vid : Nat)
+    (h : refRowsK K fk kidx vid = []) : restrictingRowsK K fk kidx vid = false := by
+  unfold restrictingRowsK
+  rw [Bool.eq_false_iff]
+  intro hany
+  obtain ⟨r, hr, hrr⟩ := List.any_eq_true.mp hany
+  have : r ∈ refRowsK K fk kidx vid := by
+    unfold refRowsK
+    refine List.mem_filter.mpr ⟨hr, ?_⟩
+    unfold rowRefs restrictCols at hrr
+    unfold rowRefs
+    obtain ⟨a, ha, hav⟩ := List.any_eq_true.mp hrr
+    exact List.any_eq_true.mpr ⟨a, (List.mem_filter.mp ha).1, hav⟩
+  rw [h] at this; cases this
+
+theorem QP_restrict (sch inj K) (fk : List (Nat × Pol)) (kidx vid : Nat)
+    (h : restrictingRowsK K fk kidx vid = false) : QP sch inj (restrictSeg fk kidx vid) K := by
+  unfold restrictSeg
+  split
+  · exact QP_id sch inj K
+  · refine QP_comp (QP_select sch inj K kidx) ?_
+    apply QP_dyn (fun s k => if restrictingRows s fk kidx vid then .fail .integrity else k)
+    intro s hs
+    rw [restrictingRows_eq, hs, h]
+    exact QP_id sch inj K
+
+theorem QP_null (sch inj K) (fk : List (Nat × Pol)) (kidx vid : Nat)
+    (h : refRowsK K fk kidx vid = []) : QP sch inj (nullSeg sch fk kidx vid) K := by
+  unfold nullSeg
+  split
+  · exact QP_id sch inj K
+  · refine QP_comp (QP_select sch inj K kidx) ?_
+    apply QP_dyn (fun s k => fetchAll kidx (refRows s fk kidx vid) <| (refRows s fk kidx vid).foldr
+        (fun r acc => .dyn fun s1 =>
+          let vs := instVals s1 kidx r.id r.vals
+          let clear := (nullCols fk).filter fun j => vs.getD j none == some (Int.ofNat vid)
+          setProg sch kidx r.id (clear.map fun j => (j, In.ok none)) [] <|
+            (if (clsOf sch kidx).lazy then syncProg kidx r.id acc else acc)) k)
+    intro s hs
+    rw [refRows_eq, hs, h]
+    exact QP_id sch inj K
+
+theorem QP_cascade (sch inj K) (rec : Nat → Nat → Prog → Prog) (fk : List (Nat × Pol)) (kidx vid : Nat)
+    (h : refRowsK K fk kidx vid = []) : QP sch inj (cascadeSeg rec fk kidx vid) K := by
+  unfold cascadeSeg
+  split
+  · refine QP_comp (QP_select sch inj K kidx) ?_
+    apply QP_dyn (fun s k => fetchAll kidx (refRows s fk kidx vid) <|
+      (refRows s fk kidx vid).foldr (fun r acc => rec kidx r.id acc) k)
+    intro s hs
+    rw [refRows_eq, hs, h]
+    exact QP_id sch inj K
+  · exact QP_id sch inj K
+
+theorem QP_entry_pass (sch inj K) (rec : Nat → Nat → Prog → Prog) (c vid kidx : Nat)
+    (h : EntryPasses sch K c vid kidx = true) : QP sch inj (depEntry rec sch c vid kidx) K := by
+  simp only [EntryPasses, Bool.and_eq_true, List.isEmpty_iff] at h
+  obtain ⟨hl, hr⟩ := h
+  have : depEntry rec sch c vid kidx = fun k => freeLinksSeg (clsOf sch kidx) c vid (restrictSeg (entryFk sch c kidx) kidx vid
+        (nullSeg sch (entryFk sch c kidx) kidx vid (cascadeSeg rec (entryFk sch c kidx) kidx vid k))) := by
+    funext k; exact depEntry_eq rec sch c vid kidx k
+  rw [this]
+  exact QP_comp (QP_freeLinks sch inj K _ c vid hl)
+    (QP_comp (QP_restrict sch inj K _ kidx vid (restricting_of_refRows_nil K _ kidx vid hr))
+      (QP_comp (QP_null sch inj K _ kidx vid hr) (QP_cascade sch inj K rec _ kidx vid hr)))
+
+theorem QP_depLoop_pass (sch inj K) (rec : Nat → Nat → Prog → Prog) (c vid : Nat) (ks : List Nat)
+    (h : ∀ kidx ∈ ks, EntryPasses sch K c vid kidx = true) : QP sch inj (depLoop rec sch c vid ks) K := by
+  unfold depLoop
+  exact QP_foldr (fun kidx acc => depEntry rec sch c vid kidx acc) ks
+    (fun kidx hk => QP_entry_pass sch inj K rec c vid kidx (h kidx hk))
+
+/-- a victim nobody references and without link rows: everything before the own DELETE is quiet -/
+def AllPass (sch : Schema) (K : Core) (t vid : Nat) : Prop :=
+  ((clsOf sch t).joins.all fun j => linksQuiet K j.tab j.side vid) = true ∧
+  ∀ kidx ∈ List.range sch.length, EntryPasses sch K t vid kidx = true
+
+theorem QP_destroy_head (sch inj K) (rec : Nat → Nat → Prog → Prog) (t vid : Nat) (h : AllPass sch K t vid) :
+    QP sch inj (fun k => ownLinksSeg (clsOf sch t) vid (depLoop rec sch t vid (List.range sch.length) k)) K :=
+  QP_comp (QP_ownLinks sch inj K _ vid h.1) (QP_depLoop_pass sch inj K rec t vid _ h.2)
+
+
+/-! ## the converse: link rows never come back -/
+
+/-- every link row of `K'` is a link row of `K` (same table) -/
+def LinksSub (K' K : Core) : Prop := ∀ t, ∀ l ∈ K'.links.getD t [], l ∈ K.links.getD t []
+
+theorem LinksSub_refl (K : Core) : LinksSub K K := fun _ _ h => h
+
+theorem LinksSub_trans {A B C : Core} (h1 : LinksSub A B) (h2 : LinksSub B C) : LinksSub A C :=
+  fun t l h => h2 t l (h1 t l h)
+
+theorem LinksSub_of_eq {A B : Core} (h : A.links = B.links) : LinksSub A B := by
+  intro t l hl; rw [← h]; exact hl
+
+theorem exec_links_sub (sch : Schema) (q : Stmt) (s s2 : St) (h : exec sch q s = .ok s2) : LinksSub s2.core s.core := by
+  unfold exec at h
+  split at h
+  · cases h; exact LinksSub_refl _
+  · dsimp only at h
+    split at h
+    · cases h
+    · split at h
+      · cases h
+      · cases h; exact LinksSub_of_eq rfl
+  · dsimp only at h
+    split at h
+    · split at h
+      · cases h
+      · cases h; exact LinksSub_of_eq rfl
+    · cases h; exact LinksSub_refl _
+  · cases h; exact LinksSub_of_eq rfl
+  · cases h
+    rename_i t side id
+    intro t' l hl
+    simp only at hl
+    by_cases ht : t = t'
+    · subst ht
+      by_cases hlen : t < s.core.links.length
+      · rw [getD_set_eq' _ _ _ _ hlen] at hl
+        exact (List.mem_filter.mp hl).1
+      · rw [List.set_eq_of_length_le (by omega)] at hl; exact hl
+    · rw [getD_set_ne' _ _ _ _ _ ht] at hl; exact hl
+where
+  getD_set_eq' {α} (l : List α) (i : Nat) (a d : α) (h : i < l.length) : (l.set i a).getD i d = a := by
+    simp [List.getD, h]
+  getD_set_ne' {α} (l : List α) (i j : Nat) (a d : α) (h : i ≠ j) : (l.set i a).getD j d = l.getD j d := by
+    simp [List.getD, List.getElem?_set, h]
+
+theorem applyMem_links (m : Mem) (K : Core) : (applyMem m K).links = K.links := by
+  cases m <;> simp only [applyMem, mapInst] <;> (try rfl) <;> (split <;> try rfl) <;> (split <;> rfl)
+
+/-- **For every program:** whatever it does, whatever fails, no link row appears that was not there. -/
+theorem run_links_sub (sch : Schema) (inj : Option Inj) (p : Prog) :
+    ∀ (s s' : St) (r : Option Err), run sch inj p s = (s', r) → LinksSub s'.core s.core := by
+  induction p with
+  | done => intro s s' r h; simp [run] at h; obtain ⟨rfl, _⟩ := h; exact LinksSub_refl _
+  | fail e => intro s s' r h; simp [run] at h; obtain ⟨rfl, _⟩ := h; exact LinksSub_refl _
+  | validate ok k ih =>
+    intro s s' r h
+    simp only [run] at h
+    split at h
+    · exact ih s s' r h
+    · simp at h; obtain ⟨rfl, _⟩ := h; exact LinksSub_refl _
+  | event sig k ih => intro s s' r h; simp only [run] at h; exact ih s s' r h
+  | stmt q k ih =>
+    intro s s' r h
+    simp only [run] at h
+    split at h
+    · simp at h; obtain ⟨rfl, _⟩ := h; exact LinksSub_refl _
+    · split at h
+      · simp at h; obtain ⟨rfl, _⟩ := h; exact LinksSub_refl _
+      · rename_i s2 hex
+        have h1 := exec_links_sub sch q _ s2 hex
+        have h2 := ih _ s' r h
+        rw [bump_core] at h2
+        exact LinksSub_trans h2 h1
+  | mem m k ih =>
+    intro s s' r h
+    simp only [run] at h
+    have h2 := ih _ s' r h
+    rw [bump_core] at h2
+    exact LinksSub_trans h2 (LinksSub_of_eq (applyMem_links m s.core))
+  | dyn f ih => intro s s' r h; simp only [run] at h; exact ih s s s' r h
+  | guard b hd k ihb ihh ihk =>
+    intro s s' r h
+    simp only [run] at h
+    split at h
+    · rename_i s1 hb
+      exact LinksSub_trans (ihk s1 s' r h) (ihb s s1 none hb)
+    · rename_i s1 e hb
+      have h1 := ihb s s1 (some e) hb
+      split at h
+      · rename_i s2 hh
+        simp at h; obtain ⟨rfl, _⟩ := h
+        exact LinksSub_trans (ihh s1 s2 none hh) h1
+      · rename_i s2 e2 hh
+        simp at h; obtain ⟨rfl, _⟩ := h
+        exact LinksSub_trans (ihh s1 s2 (some e2) hh) h1
+
+
+theorem linksQuiet_of_sub {K' K : Core} (h : LinksSub K' K) (t : Nat) (side : Bool) (vid : Nat)
+    (hq : linksQuiet K t side vid = true) : linksQuiet K' t side vid = true := by
+  unfold linksQuiet at hq ⊢
+  rw [List.all_eq_true] at hq ⊢
+  intro l hl
+  exact hq l (h t l hl)
+
+theorem exec_delLinks_after (sch : Schema) (t : Nat) (side : Bool) (vid : Nat) (s : St) :
+    ∃ s2, exec sch (.delLinks t side vid) s = .ok s2 ∧ linksQuiet s2.core t side vid = true := by
+  refine ⟨_, rfl, ?_⟩
+  unfold linksQuiet
+  rw [List.all_eq_true]
+  intro l hl
+  simp only at hl
+  by_cases hlen : t < s.core.links.length
+  · rw [exec_links_sub.getD_set_eq' _ _ _ _ hlen] at hl
+    exact (List.mem_filter.mp hl).2
+  · rw [List.set_eq_of_length_le (by omega)] at hl
+    have : s.core.links.getD t [] = [] := by simp [List.getD, List.getElem?_eq_none (by omega : s.core.links.length ≤ t)]
+    rw [this] at hl; cases hl
+
+/-- once the DELETE of a related join's link rows has run (uninjected), no row of that table
+    mentions the victim, however the operation goes on and ends -/
+theorem run_delLinks_fold_final (sch : Schema) (vid : Nat) (T : Join → Nat) (S : Join → Bool) :
+    ∀ (js : List Join) (k : Prog) (s s' : St) (r : Option Err),
+      run sch none (js.foldr (fun j acc => .stmt (.delLinks (T j) (S j) vid) acc) k) s = (s', r) →
+      ∀ j ∈ js, linksQuiet s'.core (T j) (S j) vid = true := by
+  intro js
+  induction js with
+  | nil => intro k s s' r _ j hj; cases hj
+  | cons j0 js ih =>
+    intro k s s' r h j hj
+    simp only [List.foldr_cons, run, hit] at h
+    obtain ⟨s2, hex, hq⟩ := exec_delLinks_after sch (T j0) (S j0) vid { s with n := s.n + 1, log := _ :: s.log }
+    rw [hex] at h
+    simp only at h
+    rcases List.mem_cons.mp hj with rfl | hj
+    · have hsub := run_links_sub sch none _ _ s' r h
+      rw [bump_core] at hsub
+      exact linksQuiet_of_sub hsub _ _ _ hq
+    · exact ih k _ s' r h j hj
+
+/-- the victim has link rows of its own: an uninjected `destroySelf` — however it ends — has deleted them -/
+theorem destroy_own_links_changed (sch : Schema) (fuel c id : Nat) (k : Prog) (s s' : St) (r : Option Err)
+    (hpar : (clsOf sch c).parent = none)
+    (hloud : ((clsOf sch c).joins.all fun j => linksQuiet s.core j.tab j.side id) = false)
+    (h : run sch none (destroyProg sch (fuel + 1) c id k) s = (s', r)) : s'.core ≠ s.core := by
+  unfold destroyProg at h
+  simp only [hpar, run, ownLinksSeg] at h
+  have hfin := run_delLinks_fold_final sch id (fun j => j.tab) (fun j => j.side) _ _ s s' r h
+  intro heq
+  have : ((clsOf sch c).joins.all fun j => linksQuiet s.core j.tab j.side id) = true := by
+    rw [List.all_eq_true]
+    intro j hj
+    rw [← heq]; exact hfin j hj
+  rw [this] at hloud; cases hloud
+
+/-- … and likewise when the first class with something to do has link rows towards the victim -/
+theorem destroy_entry_links_changed (sch : Schema) (fuel c id : Nat) (s s' : St) (r : Option Err)
+    (pre : List Nat) (m : Nat) (post : List Nat)
+    (hpar : (clsOf sch c).parent = none)
+    (hsplit : List.range sch.length = pre ++ m :: post)
+    (hown : ((clsOf sch c).joins.all fun j => linksQuiet s.core j.tab j.side id) = true)
+    (hpre : ∀ kidx ∈ pre, EntryPasses sch s.core c id kidx = true)
+    (hloud : EntryLinksQuiet sch s.core c id m = false)
+    (h : run sch none (destroyProg sch (fuel + 1) c id .done) s = (s', r)) : s'.core ≠ s.core := by
+  unfold destroyProg at h
+  simp only [hpar, run, hsplit, depLoop_append] at h
+  have hA := QP_comp (QP_ownLinks sch none s.core (clsOf sch c) id hown)
+    (QP_depLoop_pass sch none s.core (destroyProg sch fuel) c id pre hpre)
+  obtain ⟨s1, h1, hc1, _⟩ := hA s (depLoop (destroyProg sch fuel) sch c id (m :: post) (destroyTail c id .done)) rfl
+    (fun _ _ => rfl)
+  rw [h1] at h
+  have e1 : depLoop (destroyProg sch fuel) sch c id (m :: post) (destroyTail c id .done) =
+      depEntry (destroyProg sch fuel) sch c id m (depLoop (destroyProg sch fuel) sch c id post (destroyTail c id .done)) := rfl
+  rw [e1, depEntry_eq] at h
+  unfold freeLinksSeg at h
+  have hfin := run_delLinks_fold_final sch id (fun j => j.tab) (fun j => !j.side) _ _ s1 s' r h
+  intro heq
+  have : EntryLinksQuiet sch s.core c id m = true := by
+    unfold EntryLinksQuiet
+    rw [List.all_eq_true]
+    intro j hj
+    rw [← heq]; exact hfin j hj
+  rw [this] at hloud; cases hloud
+
 end SqlObjVerif.Fail
